@@ -473,6 +473,7 @@ def exact_keys(d, pairs):
 
 
 # translator callables: outcome in ghost state (like environment callables)
+T.declare_ghost("checked_name", Val)       # the string last handed to the module-character filter (re.sub)
 T.declare_ghost("x_kind", z3.IntSort())
 T.declare_ghost("x_val", Val)
 
@@ -484,6 +485,8 @@ def xlate_call(ex, st, f, argv, kw, text, base=Exception):
     T.used("translator callable", xlate_call.__doc__.strip())
     st = st.copy()
     TABLE.ghost_append(st, "xlate_log", V.mk_tuple([f, argv, kw]))
+    if ex.env.fn.qualname == "load":
+        TABLE.ghost_append(st, "constructs", V.mk_tuple([V.S("call"), f, argv, kw]))
     ret = V.fresh("xret")
     s_ok = st.copy()
     s_ok.sig.append("xlate:%s:ret" % text)
@@ -508,3 +511,286 @@ def _getmodule(ex, st, args, kwargs, text):
     """inspect.getmodule(cls): an opaque module object whose __name__ is a function of the class"""
     t = ex.lift(args[0])
     return [(st, ("val", V.VFun(module_of(Val.tid(t)))))]
+
+
+# ---------------------------------------------------------------------------------------------------------
+# class translator externals: re.sub, str.split, __import__, setattr
+resub = z3.Function("resub", z3.StringSort(), z3.StringSort())          # re.sub(P, "", s) for the module-char pattern
+split_of = z3.Function("split_of", z3.StringSort(), z3.StringSort(), Val)
+import_ok = z3.Function("import_ok", z3.StringSort(), z3.IntSort())   # 0 imports, 1 ImportError, 2 another exception
+module_obj = z3.Function("module_obj", z3.StringSort(), Val)
+
+
+def charclass_regex(pattern):
+    """z3 regex for the set of characters matched by a single bracket expression such as [^a-zA-Z0-9\\_\\.]"""
+    assert pattern.startswith("[") and pattern.endswith("]"), pattern
+    body = pattern[1:-1]
+    neg = body.startswith("^")
+    if neg:
+        body = body[1:]
+    items = []
+    i = 0
+    while i < len(body):
+        ch = body[i]
+        if ch == "\\":
+            ch = body[i + 1]
+            i += 1
+        if i + 2 < len(body) and body[i + 1] == "-" and body[i + 2] != "]":
+            hi = body[i + 2]
+            items.append(z3.Range(ch, hi))
+            i += 3
+            continue
+        items.append(z3.Re(ch))
+        i += 1
+    cls = z3.Union(*items) if len(items) > 1 else items[0]
+    anychar = z3.AllChar(z3.ReSort(z3.StringSort()))
+    return z3.Intersect(anychar, z3.Complement(cls)) if neg else cls
+
+
+@TABLE.register("re.sub")
+def _re_sub(ex, st, args, kwargs, text):
+    """re.sub(P, "", s) for P a single character class: the result equals s iff no character of s matches P (the
+    class is translated to a z3 regular expression from the real constant); TypeError for a non-string"""
+    pat, repl, s_ = [ex.lift(a) for a in args[:3]]
+    p = z3.simplify(Val.s(pat))
+    r = z3.simplify(Val.s(repl))
+    if not (z3.is_string_value(p) and z3.is_string_value(r) and r.as_string() == ""):
+        raise T.Unsupported("re.sub with a dynamic pattern or a non-empty replacement")
+    cls = charclass_regex(p.as_string())
+    anyc = z3.Star(z3.AllChar(z3.ReSort(z3.StringSort())))
+    has_bad = z3.InRe(Val.s(s_), z3.Concat(anyc, cls, anyc))
+    res = resub(Val.s(s_))
+    st = st.copy()
+    st.ghost["checked_name"] = s_
+    st.assume_hard((res == Val.s(s_)) == z3.Not(has_bad))      # regular-expression fact: obligations only
+    alts = [(V.is_str(s_), ("val", V.VStr(res))), (z3.Not(z3.Or(V.is_str(s_), V.is_bytes(s_))), ("raise", TypeError)),
+            (V.is_bytes(s_), ("raise", TypeError))]
+    return ex.apply_op(st, alts, "re.sub")
+
+
+def _str_split(ex, st, s_, args):
+    """s.split(sep): a list of at least one str; exactly one part iff sep does not occur in s, and then the part is s"""
+    sep = args[0]
+    T.used("str.split", _str_split.__doc__.strip())
+    r = split_of(Val.s(s_), Val.s(sep))
+    st = st.copy()
+    n = Val.llen(r)
+    st.assume(z3.And(V.is_list(r), n >= 1, z3.Implies(n == 1, z3.Select(Val.lat(r), 0) == s_)))
+    st.assume_hard((n == 1) == z3.Not(z3.Contains(Val.s(s_), Val.s(sep))))
+    st.assume(z3.And(V.is_str(z3.Select(Val.lat(r), 0)), V.is_str(z3.Select(Val.lat(r), n - 1))))
+    alts = [(z3.And(V.is_str(s_), V.is_str(sep), z3.Length(Val.s(sep)) > 0), ("val", r)),
+            (z3.And(V.is_str(s_), V.is_str(sep), z3.Length(Val.s(sep)) == 0), ("raise", ValueError)),
+            (z3.And(V.is_str(s_), z3.Not(V.is_str(sep))), ("raise", TypeError)),
+            (z3.Not(V.is_str(s_)), ("raise", AttributeError))]
+    return ex.apply_op(st, alts, "split")
+
+
+TABLE.str_split = _str_split
+
+
+@TABLE.register("builtins.__import__")
+def _import(ex, st, args, kwargs, text):
+    """__import__(name, fromlist=...): appends name to ghost `imports`; returns an opaque module object, or raises
+    ImportError, or (e.g. for an empty name) another exception"""
+    name = ex.lift(args[0])
+    st = st.copy()
+    TABLE.ghost_append(st, "imports", name)
+    out = []
+    s_ok = st.copy()
+    s_ok.sig.append("import:ok")
+    out.append((s_ok, ("val", module_obj(Val.s(name)))))
+    s_ie = st.copy()
+    s_ie.sig.append("import:ImportError")
+    out.append((s_ie, ("raise", ex.make_exc(s_ie, ImportError))))
+    s_ot = st.copy()
+    s_ot.sig.append("import:other")
+    e = ex.env_exc(s_ot, Exception)
+    s_ot.assume(z3.Not(C.subclass(C.cls_of(Val.ref(e)), ImportError)))
+    out.append((s_ot, ("raise", e)))
+    return out
+
+
+def _setattr_dyn(ex, st, args, text):
+    """setattr(obj, name, value) on an object the class translator just built: records the assignment in ghost
+    `constructs` (no attribute of the repository's objects changes); may raise (e.g. AttributeError for slots)"""
+    obj, name, value = [ex.lift(a) for a in args]
+    T.used("setattr on a constructed bean", _setattr_dyn.__doc__.strip())
+    st = st.copy()
+    TABLE.ghost_append(st, "constructs", V.mk_tuple([V.S("setattr"), obj, name, value]))
+    s_ok = st.copy()
+    s_ex = st.copy()
+    e = ex.env_exc(s_ex, Exception)
+    return [(s_ok, ("val", V.VNone)), (s_ex, ("raise", e))]
+
+
+TABLE.setattr_dyn = _setattr_dyn
+
+
+# ---------------------------------------------------------------------------------------------------------
+# HTTP connection / response / xmlrpc Transport (assumed protocol, DESIGN section 3)
+T.declare_ghost("closes", z3.IntSort())            # number of Transport.close() calls
+T.declare_ghost("exchanges", z3.IntSort())         # number of getresponse() calls that returned
+T.declare_ghost("drained", Val)                    # responses whose body was read
+parsed_of = z3.Function("parsed_of", Val, Val)     # what parse_response returns for a response object
+header_of = z3.Function("header_of", Val, z3.StringSort(), Val)
+bjoin_of = z3.Function("bjoin_of", Val, z3.StringSort())     # b"".join(chunks) / "".join(chunks): the concatenation
+
+HTTPCONN = "http.client.HTTPConnection"
+HTTPRESP = "http.client.HTTPResponse"
+
+
+def _wire_call(name, may_raise=True, doc=None):
+    def handler(ex, st, args, kwargs, text):
+        conn = ex.lift(args[0])
+        rest = [ex.lift(a) for a in args[1:]]
+        st = st.copy()
+        TABLE.ghost_append(st, "wire", V.mk_tuple([V.S(name)] + rest))
+        out = [(st, ("val", V.VNone))]
+        if may_raise:
+            s_ex = st.copy()
+            s_ex.sig.append("%s:raise" % name)
+            e = ex.env_exc(s_ex, BaseException)
+            out.append((s_ex, ("raise", e)))
+        return out
+    handler.__doc__ = doc or ("HTTPConnection.%s: appends the call and its arguments verbatim to ghost `wire`; may raise any "
+                              "exception (socket errors, http.client state errors)" % name)
+    return handler
+
+
+for _m in ("putrequest", "putheader", "endheaders", "send", "set_debuglevel"):
+    TABLE.register("http.client.HTTPConnection." + _m, _wire_call(_m))
+
+
+@TABLE.register("http.client.HTTPConnection.getresponse")
+def _getresponse(ex, st, args, kwargs, text):
+    """HTTPConnection.getresponse(): a fresh response object with an int status, or any exception"""
+    import http.client
+    st = st.copy()
+    s_ok = st.copy()
+    r = s_ok.alloc(http.client.HTTPResponse)
+    s_ok.assume(V.is_int(s_ok.read(Val.ref(r), "status")))
+    s_ok.ghost["exchanges"] = TABLE.ghost(s_ok, "exchanges") + 1
+    s_ok.ghost["last_response"] = r
+    s_ex = st.copy()
+    s_ex.sig.append("getresponse:raise")
+    e = ex.env_exc(s_ex, BaseException)
+    return [(s_ok, ("val", r)), (s_ex, ("raise", e))]
+
+
+T.declare_ghost("last_response", Val)
+
+
+@TABLE.register("http.client.HTTPResponse.getheader")
+def _getheader(ex, st, args, kwargs, text):
+    """HTTPResponse.getheader(name, default): the header value or the default (opaque)"""
+    r, name = ex.lift(args[0]), ex.lift(args[1])
+    return [(st, ("val", header_of(r, Val.s(name))))]
+
+
+@TABLE.register("http.client.HTTPResponse.read")
+def _resp_read(ex, st, args, kwargs, text):
+    """HTTPResponse.read(): records the response in ghost `drained`; returns bytes or raises any exception"""
+    r = ex.lift(args[0])
+    st = st.copy()
+    TABLE.ghost_append(st, "drained", r)
+    s_ex = st.copy()
+    s_ex.sig.append("read:raise")
+    e = ex.env_exc(s_ex, BaseException)
+    b = V.fresh("body")
+    st.assume(V.is_bytes(b))
+    return [(st, ("val", b)), (s_ex, ("raise", e))]
+
+
+FIELDS.declare(HTTPRESP, "status")
+FIELDS.declare(HTTPRESP, "reason")
+FIELDS.declare(HTTPRESP, "msg")
+
+
+@TABLE.register("xmlrpc.client.Transport.close")
+def _tr_close(ex, st, args, kwargs, text):
+    """xmlrpc.client.Transport.close(): drops the cached connection (ghost `closes` += 1); does not raise"""
+    st = st.copy()
+    st.ghost["closes"] = TABLE.ghost(st, "closes") + 1
+    st.write(Val.ref(ex.lift(args[0])), "_connection", V.mk_tuple([V.VNone, V.VNone]))
+    return [(st, ("val", V.VNone))]
+
+
+@TABLE.register("xmlrpc.client.Transport.make_connection")
+def _tr_make_connection(ex, st, args, kwargs, text):
+    """xmlrpc.client.Transport.make_connection(host): an HTTPConnection object (cached or new); may raise"""
+    import http.client
+    st = st.copy()
+    c = V.fresh("conn")
+    st.assume(z3.And(V.is_obj(c), Val.ref(c) >= 0, C.subclass(C.cls_of(Val.ref(c)), http.client.HTTPConnection)))
+    st.settype(c, http.client.HTTPConnection)
+    s_ex = st.copy()
+    e = ex.env_exc(s_ex, BaseException)
+    return [(st, ("val", c)), (s_ex, ("raise", e))]
+
+
+@TABLE.register("xmlrpc.client.Transport.parse_response")
+def _tr_parse_response(ex, st, args, kwargs, text):
+    """xmlrpc.client.Transport.parse_response(response): feeds the body (gunzipped when so encoded) in order to
+    getparser()'s parser and returns the target's close(): the value parsed_of(response); may raise"""
+    r = ex.lift(args[1])
+    s_ex = st.copy()
+    e = ex.env_exc(s_ex, BaseException)
+    return [(st, ("val", parsed_of(r))), (s_ex, ("raise", e))]
+
+
+def _exc_init(ex, st, args, kwargs, text):
+    """BaseException.__init__(self, *args): stores the arguments as self.args"""
+    st = st.copy()
+    st.write(Val.ref(ex.lift(args[0])), "args", V.mk_tuple([ex.lift(a) for a in args[1:]]))
+    return [(st, ("val", V.VNone))]
+
+
+for _k in ("builtins.Exception.__init__", "builtins.BaseException.__init__"):
+    TABLE.register(_k, _exc_init)
+
+
+# ---------------------------------------------------------------------------------------------------------
+# urlparse, xmlrpc Transport.request
+T.declare_ghost("transport_failed", z3.BoolSort())
+T.declare_ghost("sent", Val)                       # (host, request target, body) handed to Transport.request
+reply_of = z3.Function("reply_of", z3.IntSort(), Val)     # what the k-th exchange returns to the client
+url_scheme = z3.Function("url_scheme", z3.StringSort(), z3.StringSort())
+url_netloc = z3.Function("url_netloc", z3.StringSort(), z3.StringSort())
+url_path = z3.Function("url_path", z3.StringSort(), z3.StringSort())
+url_query = z3.Function("url_query", z3.StringSort(), z3.StringSort())
+
+
+@TABLE.register("urllib.parse.urlparse")
+def _urlparse(ex, st, args, kwargs, text):
+    """urlparse(uri): an object with str attributes scheme, netloc, path, query (functions of the uri); for URLs
+    without ';params' and '#fragment': uri == scheme '://' netloc path ['?' query]"""
+    import urllib.parse
+    uri = ex.lift(args[0])
+    st = st.copy()
+    r = st.alloc(urllib.parse.ParseResult)
+    u = Val.s(uri)
+    for f, fn in (("scheme", url_scheme), ("netloc", url_netloc), ("path", url_path), ("query", url_query)):
+        st.write(Val.ref(r), f, V.VStr(fn(u)))
+    alts = [(V.is_str(uri), ("val", r)), (z3.Not(V.is_str(uri)), ("unsupported", "urlparse of a non-str"))]
+    return ex.apply_op(st, alts, "urlparse")
+
+
+for _f in ("scheme", "netloc", "path", "query"):
+    FIELDS.declare("urllib.parse.ParseResult", _f)
+
+
+@TABLE.register("xmlrpc.client.Transport.request")
+def _tr_request(ex, st, args, kwargs, text):
+    """xmlrpc.client.Transport.request(host, handler, body, verbose): performs one exchange through single_request
+    (a second attempt only after a dropped connection); records (host, handler, body) in ghost `sent`; returns what the
+    exchange yields (ghost reply_of(number of exchanges so far)) or raises any exception"""
+    host, handler, body = [ex.lift(a) for a in args[1:4]]
+    st = st.copy()
+    n = Val.llen(TABLE.ghost(st, "sent"))
+    TABLE.ghost_append(st, "sent", V.mk_tuple([host, handler, body]))
+    s_ex = st.copy()
+    s_ex.sig.append("request:raise")
+    e = ex.env_exc(s_ex, BaseException)
+    s_ex.ghost["transport_failed"] = z3.BoolVal(True)
+    st.ghost["transport_failed"] = z3.BoolVal(False)
+    return [(st, ("val", reply_of(n))), (s_ex, ("raise", e))]
